@@ -50,9 +50,27 @@ CONTRACTS = {
                          "spec": "spec_get_variables", "props": ["C05", "C13", "C15"]},
     "is_template": {"qual": "BlackbirdProgram.is_template", "params": ["self"], "reads": ["self._parameters"], "modifies": [], "raises": [],
                     "spec": "spec_is_template", "props": ["C04", "C13", "C17", "C07"]},
+    # the expression printer (C01/C09: what is written must read back as the same expression): the two overrides of sympy's StrPrinter
+    "_print_Mul": {"qual": "_BlackbirdExprPrinter._print_Mul", "params": ["self", "expr"], "reads": [], "modifies": [], "raises": "any",
+                   "spec": "spec_print_Mul", "props": ["C01", "C09", "C04"], "families": ["roundtrip", "api_serialize"]},
+    "_print_ImaginaryUnit": {"qual": "_BlackbirdExprPrinter._print_ImaginaryUnit", "params": ["self", "expr"], "reads": [], "modifies": [], "raises": [],
+                             "spec": "spec_print_ImaginaryUnit", "props": ["C01", "C09"], "families": ["roundtrip", "api_serialize"]},
     "__len__": {"qual": "BlackbirdProgram.__len__", "params": ["self"], "reads": ["self._operations"], "modifies": [], "raises": [],
                 "spec": "spec_len", "props": ["C02", "C13"]},
 }
+
+
+def spec_print_Mul(self, expr):
+    # Blackbird's unary minus binds tighter than ** (grammar: MINUS expression before PWR): -a**2 would read back as (-a)**2, so a
+    # negated product that contains a power is written -(...)  (C01/C09); everything else is sympy's own text (A-sympy)
+    text = super()._print_Mul(expr)
+    if text.startswith("-") and "**" in text:
+        return "-(" + text[1:] + ")"
+    return text
+
+
+def spec_print_ImaginaryUnit(self, expr):
+    return "1j"                                                    # the grammar's imaginary literal (sympy's own text is I)
 
 
 def spec__is_ptype(v):
